@@ -191,6 +191,7 @@ type Session struct {
 	typedBytes   int
 	consumed     int
 	lastTypedESC bool
+	fusedDone    int // tokens typed together with another task's cursor report (Plan.TypeWithReport)
 
 	eof, eio             bool
 	endReads             int
@@ -731,6 +732,23 @@ func (s *Session) loop() {
 			continue
 		}
 
+		// ---- a key typed while the terminal's answer to another task's query is on its way
+		if spec.Plan.TypeWithReport > s.fusedDone && s.scriptLeft() && len(s.fifo) > 0 && !s.lastTypedESC {
+			onlyReport := true
+			for _, fb := range s.fifo {
+				if fb.src != srcReport {
+					onlyReport = false
+				}
+			}
+			if mr := s.mainReq(); onlyReport && mr != nil && mr.site == "main" && s.matchFault(mr) < 0 {
+				s.fusedDone++
+				s.step++
+				s.count("reach:typed_with_foreign_report")
+				s.typeSome()
+				continue
+			}
+		}
+
 		// ---- enabled events, canonical order first
 		var evs []event
 		for _, r := range pend {
@@ -1075,7 +1093,12 @@ func (s *Session) deliver(r *request) {
 	}
 	s.take(r, n)
 	s.remove(r)
-	s.lastProgress = s.step
+	if hadTyped || r.task != s.main {
+		// Input progress is the user's bytes being read (or another task getting its answer). The main loop
+		// reading the answer to its own cursor query is not: a loop that redisplays for ever without
+		// reading the keyboard is a busy loop, however many reports it consumes.
+		s.lastProgress = s.step
+	}
 	s.th.add("deliver", r.task.Label, r.site, string(data))
 	s.il.add(r.task.Label, r.kind.String(), r.site)
 	s.event("deliver %q -> %s %s/%s", data, r.task.Label, r.kind, r.site)
